@@ -788,3 +788,167 @@ Proof.
   - assert (H := mixed_basis_lemma false ps mol E).
     destruct (react_parts false ps mol) as [v e]. simpl in H. subst. reflexivity.
 Qed.
+
+(* ====================================================================================== *)
+(* Index remapping between packages (indexer reset_chemicals, Reaction.reset_chemicals):
+   weighted sums are carried over                                                           *)
+Definition targets (tbl : list (option nat)) : list nat :=
+  flat_map (fun t => match t with Some i => [i] | None => [] end) tbl.
+(* the functional on the source side that [aT] induces through the table *)
+Definition wmap (aT : vec) (tbl : list (option nat)) : vec :=
+  map (fun t => match t with Some i => nthq aT i | None => 0 end) tbl.
+
+Lemma upd_dot : forall (acc a : vec) i x, (i < length acc)%nat ->
+  vdot a (upd acc i x) == vdot a acc + nthq a i * (x - nthq acc i).
+Proof.
+  induction acc as [|y acc IH]; intros a i x L; simpl in L; [lia|].
+  destruct a as [|b a].
+  - rewrite !vdot_nil_l, nthq_nil. ring.
+  - destruct i as [|i]; simpl upd; rewrite !vdot_cons.
+    + unfold nthq; simpl. ring.
+    + rewrite IH by lia. unfold nthq; simpl. ring.
+Qed.
+
+Lemma nthq_vzero n i : nthq (vzero n) i = 0.
+Proof.
+  unfold nthq, vzero. revert i. induction n as [|n IH]; intros [|i]; simpl; auto.
+Qed.
+
+Lemma vdot_vzero a n : vdot a (vzero n) == 0.
+Proof.
+  revert a. unfold vzero. induction n as [|n IH]; intros a; simpl.
+  - rewrite vdot_nil_r. lra.
+  - destruct a as [|x a]; [rewrite vdot_nil_l; lra|]. rewrite vdot_cons, IH. ring.
+Qed.
+
+Lemma remap_from_dot aT : forall tbl d acc res,
+  NoDup (targets tbl) ->
+  (forall i, In i (targets tbl) -> (i < length acc)%nat /\ nthq acc i == 0) ->
+  remap_from tbl d acc = Ok res ->
+  length res = length acc /\ vdot aT res == vdot aT acc + vdot (wmap aT tbl) d.
+Proof.
+  induction tbl as [|t tbl IH]; intros d acc res ND Z R; simpl in R.
+  - inversion R; subst. simpl. rewrite vdot_nil_l. split; auto. lra.
+  - destruct d as [|x d].
+    + inversion R; subst. rewrite vdot_nil_r. split; auto. lra.
+    + simpl wmap. rewrite vdot_cons.
+      assert (ND' : NoDup (targets tbl)).
+      { simpl in ND. destruct t; simpl in ND; auto. inversion ND; auto. }
+      destruct (qzerob x) eqn:Zx.
+      * apply qzerob_true in Zx.
+        destruct (IH d acc res ND') as (L & D); auto.
+        { intros i Hi. apply Z. simpl. destruct t; simpl; auto. }
+        split; auto. rewrite D, Zx. ring.
+      * destruct t as [i|]; [|discriminate].
+        simpl in ND. inversion ND as [|? ? Hn ND'']; subst.
+        destruct (Z i) as (Li & Zi); [simpl; auto|].
+        destruct (IH d (upd acc i x) res ND') as (L & D); auto.
+        { intros j Hj. rewrite upd_length. destruct (Z j) as (Lj & Zj); [simpl; auto|].
+          split; auto. assert (i <> j) by (intros ->; contradiction).
+          rewrite nth_upd_other; auto. }
+        rewrite upd_length in L. split; auto.
+        rewrite D, upd_dot by auto. rewrite Zi. ring.
+Qed.
+
+Lemma remap_dot aT size tbl d res :
+  NoDup (targets tbl) -> (forall i, In i (targets tbl) -> (i < size)%nat) ->
+  remap size tbl d = Ok res ->
+  length res = size /\ vdot aT res == vdot (wmap aT tbl) d.
+Proof.
+  intros ND B R. unfold remap in R.
+  destruct (remap_from_dot aT tbl d (vzero size) res ND) as (L & D); auto.
+  - intros i Hi. unfold vzero at 1. rewrite repeat_length. split; auto. rewrite nthq_vzero. lra.
+  - unfold vzero in L. rewrite repeat_length in L. split; auto. rewrite D, vdot_vzero. lra.
+Qed.
+
+(* a reaction moved to another package annihilates a functional there exactly when it annihilated
+   the corresponding functional (same chemical, same weight) on its own package *)
+Lemma retarget_balanced_lemma aT size tbl r r' :
+  NoDup (targets tbl) -> (forall i, In i (targets tbl) -> (i < size)%nat) ->
+  retarget size tbl r = Ok r' ->
+  length (st r') = size /\ X r' = X r /\ wt r' = wt r /\ phases r' = phases r /\
+  nth (ridx r) tbl None = Some (ridx r') /\
+  vdot aT (st r') == vdot (wmap aT tbl) (st r).
+Proof.
+  intros ND B. unfold retarget. destruct (remap size tbl (st r)) as [s|e] eqn:R; simpl; [|discriminate].
+  destruct (nth (ridx r) tbl None) as [i|] eqn:E; [|discriminate].
+  intros H; inversion H; subst; clear H. simpl.
+  destruct (remap_dot aT size tbl (st r) s ND B R) as (L & D). repeat split; auto.
+Qed.
+
+(* agreement on the support is enough for a dot product *)
+Lemma vdot_agree : forall (u v d : vec), length u = length v ->
+  (forall j, ~ nthq d j == 0 -> nthq u j == nthq v j) -> vdot u d == vdot v d.
+Proof.
+  induction u as [|a u IH]; intros [|b v] d L A; simpl in L; try discriminate.
+  - reflexivity.
+  - destruct d as [|x d]; [rewrite !vdot_nil_r; lra|]. rewrite !vdot_cons.
+    rewrite (IH v d) by (auto; intros j Hj; exact (A (S j) Hj)).
+    destruct (Qeq_dec x 0) as [Zx|Nx].
+    + rewrite Zx. ring.
+    + assert (H0 := A O). unfold nthq in H0; simpl in H0. rewrite (H0 Nx). ring.
+Qed.
+
+(* a successful remap met no non-zero flow without a target *)
+Lemma remap_from_none : forall tbl d acc res, remap_from tbl d acc = Ok res ->
+  forall j, nth j tbl (Some O) = None -> nthq d j == 0.
+Proof.
+  induction tbl as [|t tbl IH]; intros d acc res R j Hj.
+  - destruct j; discriminate.
+  - destruct d as [|x d]; [rewrite nthq_nil; lra|]. simpl in R.
+    destruct (qzerob x) eqn:Zx.
+    + destruct j as [|j]; [apply qzerob_true in Zx; exact Zx|]. exact (IH d acc res R j Hj).
+    + destruct t as [i|]; [|discriminate].
+      destruct j as [|j]; [discriminate|]. exact (IH d _ res R j Hj).
+Qed.
+
+Lemma nthq_wmap aT : forall tbl j,
+  nthq (wmap aT tbl) j = match nth_error tbl j with Some (Some i) => nthq aT i | _ => 0 end.
+Proof.
+  induction tbl as [|t tbl IH]; intros j.
+  - destruct j; reflexivity.
+  - destruct j as [|j].
+    + simpl. unfold nthq; simpl. destruct t; reflexivity.
+    + simpl nth_error. rewrite <- (IH j). reflexivity.
+Qed.
+
+Lemma nth_error_nth_some {A} (l : list A) j d : (j < length l)%nat -> nth_error l j = Some (nth j l d).
+Proof. revert j; induction l as [|a l IH]; intros [|j] L; simpl in *; try lia; auto. apply IH. lia. Qed.
+
+(* streams on another package: what the functional [aB] measures on the stream is what the
+   corresponding functional [aA] measures on the reaction's package, in both directions *)
+Lemma other_package_lemma w o nA fwd bwd mol mol' aA aB :
+  NoDup (targets fwd) -> (forall i, In i (targets fwd) -> (i < nA)%nat) ->
+  NoDup (targets bwd) -> (forall i, In i (targets bwd) -> (i < length mol)%nat) ->
+  length fwd = length mol -> length bwd = nA -> length aB = length mol -> length aA = nA ->
+  (forall j i, nth j fwd (Some O) = Some i -> (j < length fwd)%nat -> nthq aA i == nthq aB j) ->
+  (forall i j, nth i bwd (Some O) = Some j -> (i < length bwd)%nat -> nthq aB j == nthq aA i) ->
+  call_other w o nA fwd bwd mol = (None, mol') ->
+  exists a a', remap nA fwd mol = Ok a /\ call_stream w o a = (None, a') /\
+    vdot aA a == vdot aB mol /\ vdot aB mol' == vdot aA a'.
+Proof.
+  intros NDf Bf NDb Bb Lf Lb LaB LaA Cf Cb. unfold call_other.
+  destruct (remap nA fwd mol) as [a|e] eqn:Rf; [|discriminate].
+  destruct (call_stream w o a) as [[e|] a'] eqn:C; [discriminate|].
+  destruct (remap (length mol) bwd a') as [b|e] eqn:Rb; [|discriminate].
+  intros H; inversion H as [Hb]; subst b; clear H. exists a, a'. repeat split; auto.
+  - destruct (remap_dot aA nA fwd mol a NDf Bf Rf) as (_ & D). rewrite D.
+    apply vdot_agree; [unfold wmap; rewrite map_length; congruence|].
+    intros j Nz. rewrite nthq_wmap.
+    destruct (Nat.lt_ge_cases j (length fwd)) as [Lt|Ge].
+    + rewrite (nth_error_nth_some fwd j (Some O) Lt).
+      destruct (nth j fwd (Some O)) as [i|] eqn:E.
+      * apply (Cf j i E Lt).
+      * exfalso. apply Nz. unfold remap in Rf. exact (remap_from_none _ _ _ _ Rf j E).
+    + exfalso. apply Nz. unfold nthq. rewrite nth_overflow; [lra|lia].
+  - destruct (remap_dot aB (length mol) bwd a' mol' NDb Bb Rb) as (_ & D). rewrite D.
+    apply vdot_agree; [unfold wmap; rewrite map_length; congruence|].
+    intros i Nz. rewrite nthq_wmap.
+    destruct (Nat.lt_ge_cases i (length bwd)) as [Lt|Ge].
+    + rewrite (nth_error_nth_some bwd i (Some O) Lt).
+      destruct (nth i bwd (Some O)) as [j|] eqn:E.
+      * apply (Cb i j E Lt).
+      * exfalso. apply Nz. unfold remap in Rb. exact (remap_from_none _ _ _ _ Rb i E).
+    + assert (E : nth_error bwd i = None) by (apply nth_error_None; lia). rewrite E.
+      unfold nthq. rewrite nth_overflow by lia. lra.
+Qed.
